@@ -252,16 +252,46 @@ V(id='c33-constmemo-shift', prop='C33', file='mpmath/libmp/libelefun.py',
   old="            return f.memo_val >> (memo_prec-prec)", new="            return f.memo_val >> (memo_prec-prec-1)",
   expect='fire:D-R2:constant_memo.g')
 V(id='c33-lu-no-tag-gate', prop='C33', file='mpmath/matrices/linalg.py',
-  old="        if use_cache and not overwrite and isinstance(A, ctx.matrix) and \\\n                A._LU and A._LU_prec >= ctx.prec:",
+  old="        if use_cache and not overwrite and isinstance(A, ctx.matrix) and \\\n                A._LU and A._LU_prec == ctx.prec:",
   new="        if use_cache and not overwrite and isinstance(A, ctx.matrix) and A._LU:",
   expect='fire:D-LU:LU_decomp')
 V(id='c33-setrows-no-reset', prop='C33', file='mpmath/matrices/matrices.py',
-  old="        self.__rows = value\n        self._LU = None\n", new="        self.__rows = value\n",
+  old="    def __setrows(self, value):\n        self._LU = None\n", new="    def __setrows(self, value):\n",
   expect='fire:D-R4:__setrows')
+V(id='c33-setrows-reset-last', prop='C33', file='mpmath/matrices/matrices.py',
+  old="    def __setrows(self, value):\n        self._LU = None\n        for key in self.__data.copy():\n            if key[0] >= value:\n                del self.__data[key]\n        self.__rows = value\n",
+  new="    def __setrows(self, value):\n        for key in self.__data.copy():\n            if key[0] >= value:\n                del self.__data[key]\n        self.__rows = value\n        self._LU = None\n",
+  expect='fire:D-R4:__setrows')
+V(id='c33-setcols-reset-after-deletions', prop='C33', file='mpmath/matrices/matrices.py',
+  old="    def __setcols(self, value):\n        self._LU = None\n        for key in self.__data.copy():\n            if key[1] >= value:\n                del self.__data[key]\n",
+  new="    def __setcols(self, value):\n        for key in self.__data.copy():\n            if key[1] >= value:\n                del self.__data[key]\n        self._LU = None\n",
+  expect='fire:D-R4:__setcols')
 V(id='c33-setitem-reset-only-single', prop='C33', file='mpmath/matrices/matrices.py',
-  old="                del self.__data[key]\n\n        if self._LU:\n            self._LU = None\n        return",
-  new="                del self.__data[key]\n            if self._LU:\n                self._LU = None\n        return",
+  edits=[("        # in between must not leave them with a changed matrix)\n        self._LU = None\n", "        # in between must not leave them with a changed matrix)\n"),
+         ("            # Single element assingment\n", "            # Single element assingment\n            self._LU = None\n")],
   expect='fire:D-R4:__setitem__')
+V(id='c33-setitem-reset-last', prop='C33', file='mpmath/matrices/matrices.py',
+  edits=[("        # in between must not leave them with a changed matrix)\n        self._LU = None\n", "        # in between must not leave them with a changed matrix)\n"),
+         ("            elif key in self.__data:\n                del self.__data[key]\n        return\n", "            elif key in self.__data:\n                del self.__data[key]\n        if self._LU:\n            self._LU = None\n        return\n")],
+  expect='fire:D-R4:__setitem__')
+V(id='c33-benign-setitem-reset-after-key-normalisation', prop='C33', file='mpmath/matrices/matrices.py',
+  edits=[("        # in between must not leave them with a changed matrix)\n        self._LU = None\n", "        # in between must not leave them with a changed matrix)\n"),
+         ("        # Slice indexing\n        if isinstance(key[0],slice) or isinstance(key[1],slice):\n", "        if self._LU:\n            self._LU = None\n        # Slice indexing\n        if isinstance(key[0],slice) or isinstance(key[1],slice):\n")],
+  expect='silent')
+V(id='c33-lu-gate-higher-precision', prop='C33', file='mpmath/matrices/linalg.py',
+  old="                A._LU and A._LU_prec == ctx.prec:", new="                A._LU and A._LU_prec >= ctx.prec:",
+  expect='fire:D-LU4:LU_decomp')
+V(id='c33-benign-lu-gate-flipped-equality', prop='C33', file='mpmath/matrices/linalg.py',
+  old="                A._LU and A._LU_prec == ctx.prec:", new="                A._LU and ctx.prec == A._LU_prec:",
+  expect='silent')
+V(id='c33-memoize-shares-matrix', prop='C33', file='mpmath/ctx_base.py',
+  old="            if isinstance(value, ctx.matrix):\n                # (mutable: the cache keeps its own copy, as a hit hands\n                # out a copy)\n                f_cache[key] = (prec, value.copy())\n            else:\n                f_cache[key] = (prec, value)\n",
+  new="            f_cache[key] = (prec, value)\n", expect='fire:D-R6m:f_cached')
+V(id='c33-memoize-matrix-branch-without-copy', prop='C33', file='mpmath/ctx_base.py',
+  old="                f_cache[key] = (prec, value.copy())\n", new="                f_cache[key] = (prec, value)\n", expect='fire:D-R6m:f_cached')
+V(id='c33-benign-memoize-returns-copy-instead', prop='C33', file='mpmath/ctx_base.py',
+  old="            if isinstance(value, ctx.matrix):\n                # (mutable: the cache keeps its own copy, as a hit hands\n                # out a copy)\n                f_cache[key] = (prec, value.copy())\n            else:\n                f_cache[key] = (prec, value)\n            return value\n",
+  new="            f_cache[key] = (prec, value)\n            if isinstance(value, ctx.matrix):\n                return value.copy()\n            return value\n", expect='silent')
 V(id='c33-coulomb-shared-default', prop='C33', file='mpmath/functions/bessel.py',
   old="def coulombc(ctx, l, eta):\n    # cache per context: the values are numbers of this context\n    _cache = ctx._misc_const_cache\n",
   new="def coulombc(ctx, l, eta, _cache={}):\n",
@@ -276,9 +306,6 @@ V(id='c33-new-untriaged-cache', prop='C33', file='mpmath/libmp/libelefun.py',
 V(id='c33-benign-rename-tag', prop='C33', file='mpmath/libmp/libelefun.py',
   old="        value, vprec = log_int_cache[n]\n        if vprec >= prec:\n            return value >> (vprec - prec)",
   new="        cached_value, stored = log_int_cache[n]\n        if prec <= stored:\n            return cached_value >> (stored - prec)",
-  expect='silent')
-V(id='c33-benign-lu-reset-unconditional', prop='C33', file='mpmath/matrices/matrices.py',
-  old="        if self._LU:\n            self._LU = None\n        return", new="        self._LU = None\n        return",
   expect='silent')
 
 V(id='c05-intcache-poisoned', prop='C05', file='mpmath/libmp/libmpf.py',
